@@ -21,11 +21,15 @@ EXPLANATION = (
     'bytes, NumPy scalars follow NEP 50. On every path z3 decides that the decoded samples equal those of an independent '
     'reference decoder of the program, for all residual values. Truncated streams, unknown commands / versions / types '
     'must raise the supplied IOError on every path. The reference encoder/decoder pair is itself validated by decoding '
-    'the six shipped sph2pipe vectors to their reference WAVs.')
+    'the six shipped sph2pipe vectors to their reference WAVs. Independently of any stream, ONE STEP of the nested bit '
+    'reader is decided from an arbitrary reader state (AST-exposed closures of the loaded copy): for every number of '
+    'unread bits 0..32 of a symbolic current word followed by symbolic words, uvar_get / var_get(nbin) return exactly the '
+    'unary+mantissa code word at the current bit position and leave the reader exactly behind it.')
 BOUNDS = {
     'quick': '15 programs: versions 1-2; types S16HL/S16LH/AU1/AU2; 1-2 channels; block sizes 2-4 incl. BLOCKSIZE to a shorter final block; '
              'nmean 0/1/2/4; DIFF0-3, QLPC order 1-2 (concrete quantised coefficients), ZERO, BITSHIFT 1-2, QUIT; residual width 0-5 bits '
-             'with 0-1 extra unary bit; <= 3 blocks x <= 4 samples per channel (<= 2^8 sign paths per program); every truncation point of 4 programs',
+             'with 0-1 extra unary bit; <= 3 blocks x <= 4 samples per channel (<= 2^8 sign paths per program); every truncation point of 4 programs; '
+             'bit-reader step: unread bits 0..32, mantissa widths 0,1,2,5,8,16,31,32, unary runs <= 3 (thorough: 13 widths, runs <= 8), any word contents',
     'thorough': 'same grammar, 30 programs, QLPC order up to 3, up to 10 residuals per program',
 }
 OUTSIDE = ['streams longer than the bound; nskip > 0; unsigned / 8-bit linear sample types (do not occur in SPHERE files)',
@@ -465,6 +469,11 @@ def configs(tier, seed):
     for i in (0, 3, 4, 8):
         cfgs.append(dict(kind='truncated', name='truncated ' + programs(tier)[i]['name'], prog=i))
     cfgs.append(dict(kind='errors', name='errors'))
+    nbs = list(range(0, 33))
+    ngrp = 11
+    for i in range(ngrp):
+        cfgs.append(dict(kind='bitreader', name='bit reader step, unread bits %s' % nbs[i::ngrp], nbitgets=nbs[i::ngrp], zmax=3 if tier == 'quick' else 8,
+                         nbins=(0, 1, 2, 5, 8, 16, 31, 32) if tier == 'quick' else (0, 1, 2, 3, 4, 5, 7, 8, 13, 16, 24, 31, 32)))
     cfgs.append(dict(kind='divlemma', name='c99_div lemma'))
     for v in (['123_1pcbe', '123_2ulaw'] if tier == 'quick' else ['123_1pcbe', '123_1pcle', '123_1ulaw', '123_2pcbe', '123_2pcle', '123_2ulaw']):
         cfgs.append(dict(kind='prefix', name='prefix ' + v, vector=v, blocks=1 if tier == 'quick' else 2))
@@ -735,9 +744,155 @@ def run_prefix(cfg, tier):
     return dict(obligations=1, discharged=1, violations=[], samples=[{'config': cfg['name'], 'samples_compared': len(flat)}], twin=True)
 
 
+
+# ------------------------------------------------------------------ one step of the bit reader from an arbitrary state
+
+def _expose_bitreader(tree):
+    """AST insertion (on the loaded copy only): right after the nested `def var_get` of copy_shortened_samples,
+    `if __BITREADER_HOOK__ is not None: return __BITREADER_HOOK__(word_get, uvar_get, var_get)` -- the closures of the
+    real bit reader become callable on a state of our choosing."""
+    import ast
+    for node in ast.walk(tree):
+        if isinstance(node, ast.FunctionDef) and node.name == 'copy_shortened_samples':
+            for i, st in enumerate(node.body):
+                if isinstance(st, ast.FunctionDef) and st.name == 'var_get':
+                    hook = ast.parse('if __BITREADER_HOOK__ is not None:\n    return __BITREADER_HOOK__(word_get, uvar_get, var_get)').body[0]
+                    node.body.insert(i + 1, hook)
+                    return tree
+    raise Inconclusive('nested var_get not found in copy_shortened_samples (bit reader restructured)')
+
+
+NWORDS = 4      # words after the current one that the step may fetch
+
+
+def run_bitreader(cfg, tier):
+    """Inductive step of the Rice / unary bit reader.  State: the current 32-bit word (symbolic), the number of its bits
+    still unread (concrete 0..32, every value is a configuration), the following words (symbolic).  One call of the
+    real uvar_get(nbin) / var_get(nbin) must return the code word that starts at the current bit position of the
+    stream -- z zero bits, a one, nbin mantissa bits -- and leave the reader exactly behind it (position, current
+    word).  Together with the stream-start state (nbitget = 0) this covers every alignment a stream can produce."""
+    zmax = cfg['zmax']
+    subs = dict(np=NPs, struct=Struct, memoryview=lambda x: x, float=sfloat, int=sint, warnings=Warn)
+    got = {}
+    subs['__BITREADER_HOOK__'] = lambda *fns: fns
+    ns = loader.load_unit('_sphere', subs, transform=_expose_bitreader, name='sphere_bitreader')
+    viol = []
+    ob = dis = 0
+    for nb0, nbin, which in itertools.product(cfg['nbitgets'], cfg['nbins'], ('uvar', 'var')):
+        if which == 'var' and nbin >= 32:
+            continue
+        width = nbin + 1 if which == 'var' else nbin
+
+        def body():
+            c = Ctx.cur
+            g = z3.BitVec('g', 32)
+            ws = [z3.BitVec('w%d' % i, 32) for i in range(NWORDS)]
+            B = z3.Concat(g, *ws)                      # bit 0 = most significant bit of g
+            total = 32 * (NWORDS + 1)
+            pos = 32 - nb0
+
+            def bit(i):
+                return z3.Extract(total - 1 - i, total - 1 - i, B)
+            c.assume(z3.Or([bit(pos + i) == 1 for i in range(zmax + 1)]))      # unary run of at most zmax zeros
+            more = []
+            for w in ws:
+                more += [z3.Extract(31 - 8 * k, 24 - 8 * k, w) for k in range(4)]
+            try:
+                word_get, uvar_get, var_get = ns['copy_shortened_samples'](SymBytes(list(b'ajkg') + [2]), File(), NDB((1,)), IOError('x'))
+                word_get.inpbuf = SymBytes(more)
+                uvar_get.gbuffer = mk(z3.SignExt(WID - 32, g))
+                uvar_get.nbitget = nb0
+                res = (uvar_get if which == 'uvar' else var_get)(nbin)
+                g1, nb1, left = uvar_get.gbuffer, uvar_get.nbitget, len(word_get.inpbuf)
+            except Exception as e:
+                symex.guard(e)
+                return ('exception', '%s: %s' % (type(e).__name__, e))
+            z = None
+            for i in range(zmax + 1):
+                if decide(bit(pos + i) == 1):
+                    z = i
+                    break
+            start = pos + z + 1
+            if width:
+                field = z3.ZeroExt(WID - width, z3.Extract(total - 1 - start, total - start - width, B))
+            else:
+                field = z3.BitVecVal(0, WID)
+            u = (z3.BitVecVal(z, WID) << width) | field
+            want = u if which == 'uvar' else z3.If(u & 1 == 1, ~(u >> 1), u >> 1)
+            end = start + width
+            if not isinstance(nb1, int) or not isinstance(left, int):
+                return ('state', 'symbolic reader state after the call')
+            k = (len(more) - left) // 4                    # words fetched by this call
+            bad = [bv(res) != want, z3.BoolVal(not (0 <= nb1 <= 32)), z3.BoolVal(32 * (k + 1) - nb1 != end)]
+            if nb1 > 0:
+                cur = g if k == 0 else ws[k - 1]
+                bad.append(bv(g1) != z3.SignExt(WID - 32, cur))
+            return ('cmp', bad, z)
+
+        for ctx, res in explore(body, max_paths=200):
+            if res is None:
+                continue
+            ob += 1
+            base = dict(kind='bitreader', nbitget=nb0, nbin=nbin, fn=which)
+            s = ctx.solver
+            if res[0] != 'cmp':
+                m = ctx.model()
+                viol.append(dict(base, what=res[0], detail=res[1][:160], words=[m.eval(z3.BitVec(n, 32), True).as_long() for n in ['g'] + ['w%d' % i for i in range(NWORDS)]]))
+                continue
+            s.push()
+            s.add(z3.Or(res[1]))
+            r = check_sat(s)
+            if r == 'sat':
+                m = s.model()
+                viol.append(dict(base, what='value/state', detail='unary run %d' % res[2], words=[m.eval(z3.BitVec(n, 32), True).as_long() for n in ['g'] + ['w%d' % i for i in range(NWORDS)]]))
+            else:
+                dis += 1
+            s.pop()
+    for w in viol:
+        w['class'] = 'bitreader/%s/%s/%s' % (w['fn'], w['what'], 'aligned' if w['nbitget'] in (0, 32) else 'unaligned')
+    return dict(obligations=ob, discharged=dis, violations=viol, twin=dis > 0,
+                samples=[{'config': cfg['name'], 'obligation': 'forall current word, following words: uvar_get/var_get(nbin) from nbitget in %s returns the code word at the current position and advances exactly past it' % (cfg['nbitgets'],)}])
+
+
+def _replay_bitreader(w):
+    """the real closures (same AST exposure, but real numpy / struct / memoryview, concrete words) against a plain bit-string reference"""
+    import struct as _struct
+    import numpy as np
+    ns = loader.load_unit('_sphere', {'__BITREADER_HOOK__': (lambda *fns: fns)}, transform=_expose_bitreader, name='sphere_bitreader_real')
+    words = w['words']
+    bits = ''.join(format(x & 0xFFFFFFFF, '032b') for x in words)
+    more = b''.join(_struct.pack('>L', x & 0xFFFFFFFF) for x in words[1:])
+
+    class F:
+        def read(self, n):
+            return b''
+    try:
+        word_get, uvar_get, var_get = ns['copy_shortened_samples'](b'ajkg' + bytes([2]), F(), np.zeros(1, dtype=np.int16), IOError('x'))
+        word_get.inpbuf = memoryview(more)
+        (g,) = _struct.unpack('>l', _struct.pack('>L', words[0] & 0xFFFFFFFF))
+        uvar_get.gbuffer = g
+        uvar_get.nbitget = w['nbitget']
+        res = int((uvar_get if w['fn'] == 'uvar' else var_get)(w['nbin']))
+        nb1, left = int(uvar_get.nbitget), len(word_get.inpbuf)
+    except Exception as e:
+        return {'reproduced': True, 'detail': 'real bit reader raised %s: %s (nbitget=%d nbin=%d words=%s)' % (type(e).__name__, e, w['nbitget'], w['nbin'], [hex(x) for x in words])}
+    pos = 32 - w['nbitget']
+    z = bits[pos:].index('1')
+    width = w['nbin'] + (1 if w['fn'] == 'var' else 0)
+    start = pos + z + 1
+    u = (z << width) | (int(bits[start:start + width], 2) if width else 0)
+    want = u if w['fn'] == 'uvar' else (~(u >> 1) if u & 1 else u >> 1)
+    end = start + width
+    k = (len(more) - left) // 4
+    if res != want or 32 * (k + 1) - nb1 != end:
+        return {'reproduced': True, 'detail': '%s_get(%d) with %d unread bits of word %s followed by %s returned %d and stands at bit %d; the stream holds %d ending at bit %d' % (
+            w['fn'], w['nbin'], w['nbitget'], hex(words[0]), [hex(x) for x in words[1:3]], res, 32 * (k + 1) - nb1, want, end)}
+    return {'reproduced': False, 'detail': 'real bit reader agrees with the bit-string reference'}
+
+
 def run_config(cfg):
     tier = cfg.get('_tier', 'quick')
-    return {'roundtrip': run_roundtrip, 'truncated': run_truncated, 'errors': run_errors, 'divlemma': run_divlemma, 'prefix': run_prefix}[cfg['kind']](cfg, tier)
+    return {'roundtrip': run_roundtrip, 'truncated': run_truncated, 'errors': run_errors, 'divlemma': run_divlemma, 'prefix': run_prefix, 'bitreader': run_bitreader}[cfg['kind']](cfg, tier)
 
 
 _configs0 = configs
@@ -768,6 +923,8 @@ def replay(w):
     from pydrobert.speech.util import read_signal
     import pydrobert.speech._sphere as sph
     tier = 'thorough' if w.get('prog', 0) >= len(programs('quick')) else 'quick'
+    if w['kind'] == 'bitreader':
+        return _replay_bitreader(w)
     if w['kind'] == 'divlemma':
         a, b = w['a'], w['b']
         got = sph.c99_div(a, b)
